@@ -197,8 +197,7 @@ Exclusion g_v0[VMAX + 1]; size_t g_n0, g_cap0, g_idx; Exclusion *g_first0;
                      && FBITS((a).smx) == FBITS((b).smx) && (a).open == (b).open)
 /* a well-formed vector whose storage is one exact-size heap object */
 #define VEC_OK(v) ((v)->m_first != NULL && SAME((v)->m_first, (v)->m_last) && SAME((v)->m_first, (v)->m_end) && OFF((v)->m_first) == 0 \
-                   && OFF((v)->m_last) >= 0 && OFF((v)->m_last) % ESZ == 0 && OFF((v)->m_last) <= OFF((v)->m_end) && OFF((v)->m_end) % ESZ == 0 \
-                   && (size_t)OFF((v)->m_end) == OBJSZ((v)->m_first))
+                   && VSZ(v) <= VCAP(v) && VCAP(v) <= 8 && OBJSZ((v)->m_first) == VCAP(v) * sizeof(Exclusion))
 #define SNAP1(v, k) ((k) >= g_n0 || EL_EQ((v)->m_first[k], g_v0[k]))
 #define SNAP_OK(v) (VSZ(v) == g_n0 && VCAP(v) == g_cap0 && (v)->m_first == g_first0 \
                     && SNAP1(v,0) && SNAP1(v,1) && SNAP1(v,2) && SNAP1(v,3) && SNAP1(v,4) && SNAP1(v,5) && SNAP1(v,6) && SNAP1(v,7))
